@@ -53,7 +53,23 @@ pub fn illformed() -> Vec<Value> {
             out.push(al::obj1(k, json!({"var": ""})));
             out.push(al::obj1(k, json!(null)));
         }
+        // the "field test" shape: a plain field reference first, constants after it (too few, too many)
+        for n in 1..=4usize {
+            if !refmodel::arity_ok(k, n) {
+                let mut args = vec![json!(1); n];
+                args[0] = json!({"var": "a"});
+                out.push(op(k, args.clone()));
+                if n >= 2 {
+                    args[0] = json!(1);
+                    args[1] = json!({"var": "a"});
+                    out.push(op(k, args));
+                }
+            }
+        }
     }
+    // the same for var itself: a plain key, a default, and surplus operands
+    out.push(json!({"var": ["a", 0, "surplus"]}));
+    out.push(json!({"var": ["a", 0, "surplus", 4]}));
     out
 }
 
@@ -97,7 +113,7 @@ pub fn run(ctx: &mut Ctx) {
                 ctx.record(if accepted { "accept:benign" } else { "reject:benign" }, &r, d, &o, verdict(accepted, true, &o));
                 if !accepted {
                     // a wrong count nested in an eager operand, or in an evaluated lazy branch, is an error of the whole rule
-                    for r2 in [json!({"cat": ["x", r]}), json!({"if": [true, r, 0]}), json!({"map": [[1], r]})] {
+                    for r2 in [json!({"cat": ["x", r]}), json!({"if": [true, r, 0]}), json!({"map": [[1], r]}), json!({"map": [[{"a": 1}, {"a": 2}], r]}), json!({"filter": [[{"a": 1}], r]}), json!({"some": [[{"a": 1}, {"b": 1}], r]})] {
                         let o2 = ctx.exec(&r2, d);
                         ctx.record("reject:nested", &r2, d, &o2, verdict(false, false, &o2));
                     }
@@ -231,6 +247,27 @@ pub fn run(ctx: &mut Ctx) {
                 };
                 ctx.record("sugar:computed-operand:bracketed", &r2, &d, &o2, None);
                 ctx.record("sugar:computed-operand:bare", &r1, &d, &o1, if same { None } else { Some((format!("same as bracketed: {}", o2.show()), o1.show())) });
+            }
+        }
+    }
+    // every ill-formed operation (incl. the field-test shapes: a field reference first, surplus constants after)
+    // as the per-element expression / predicate over records, numbers and strings: an error wherever it is evaluated
+    for b in illformed() {
+        if !ctx.mine() {
+            continue;
+        }
+        for coll in [json!([{"a": 1}, {"a": 2}]), json!([{"a": 1}, 5]), json!([1, 2]), json!("ab")] {
+            for h in ["map", "filter", "all", "some", "none"] {
+                ctx.edge();
+                let r = op(h, vec![coll.clone(), b.clone()]);
+                let o = ctx.exec(&r, &ds[1]);
+                let (exp, _) = refmodel::reference(&r, &ds[1]);
+                ctx.record("reject:per-element", &r, &ds[1], &o, if matches!(exp, refmodel::Exp::Err) { verdict(false, false, &o) } else { None });
+                let r = op(h, vec![json!({"var": "rows"}), b.clone()]);
+                let dd = json!({"rows": coll});
+                let o = ctx.exec(&r, &dd);
+                let (exp, _) = refmodel::reference(&r, &dd);
+                ctx.record("reject:per-element:V", &r, &dd, &o, if matches!(exp, refmodel::Exp::Err) { verdict(false, false, &o) } else { None });
             }
         }
     }
